@@ -225,6 +225,15 @@ def boundary(rng, case, idx):
                     _probe(w, 'B5_dilute_above_current', f'{num}/{den}', d, 'Container.dilute',
                            {'op': 'dilute', 'dst': 'dil', 'solute': solute.name, 'conc': cs, 'solvent': solv.name, 'q': cs},
                            lambda cs=cs: sol.dilute(solute, cs, solv))
+            # a container emptied of everything (the solute is still a key, with a zero amount)
+            try:
+                with M.active(case):
+                    emptied, _ = C.transfer(sol, C('sink'), w.whole_volume_request(sol))
+                _probe(w, 'B5_dilute_emptied_container', 'mol/L', 0, 'Container.dilute',
+                       {'op': 'dilute', 'dst': 'emptied', 'solute': solute.name, 'conc': '0.001 M', 'solvent': solv.name, 'q': '0.001 M'},
+                       lambda: emptied.dilute(solute, '0.001 M', solv))
+            except ValueError:
+                pass
     # ---- B9 zero-measure sources
     empty = C('empty')
     enz = [x for x in w.subs if x.is_enzyme()]
